@@ -79,6 +79,10 @@ def gen_weights(rng, shape, mode):
     w = [rng.choice(src) for _ in range(n)]
     if mode == "nan":
         w = [NAN if rng.random() < 0.3 else x for x in w]
+    if mode == "inf":
+        # infinite confidences (log-odds of a perfect annotator): counted where the annotator voted, ignored at a missing
+        # label and for every other class -- `inf * False` is NaN, a masked sum is not a count (seed R11H03)
+        w = [float("inf") if rng.random() < 0.3 else (NAN if rng.random() < 0.1 else x) for x in w]
     return np.array(w, dtype=float).reshape(shape)
 
 
@@ -324,7 +328,7 @@ def random_case(ctx, lines, expect, rng):
         shape = (n,) if m is None else (n, m)
         p_missing = rng.choice([0.0, 0.3, 0.3, 0.6, 1.0])
         vals = gen_labels(rng, enc, n, m, K, p_missing, allow_unseen=classes is not None and rng.random() < 0.1)
-        mode = rng.choice(["none", "int", "dyadic", "nan", "nan"])
+        mode = rng.choice(["none", "int", "dyadic", "nan", "nan", "inf"])
         wshape = shape
         if mode != "none" and rng.random() < 0.08 and n > 0:
             wshape = (n + 1,) if m is None else rng.choice([(n, m + 1), (n + 1, m)])
@@ -336,7 +340,7 @@ def random_case(ctx, lines, expect, rng):
         shape = (n,) if m is None else (n, m)
         p_missing = rng.choice([0.0, 0.3, 0.5, 0.7, 1.0])
         vals = gen_labels(rng, enc, n, m, K, p_missing)
-        mode = rng.choice(["none", "int", "dyadic", "nan", "int", "near"])
+        mode = rng.choice(["none", "int", "dyadic", "nan", "int", "near", "inf"])
         w = gen_weights(rng, shape, mode)
         case_majority(ctx, lines, expect, enc, vals, shape, classes, w, rng.randrange(2**31 - 1))
     else:
